@@ -20,13 +20,13 @@ CHECKS = {
  "C03": dict(
    technique="property-based testing: grammar-directed statement generator with a model tree (round-trip text -> parse -> tree equality), random parenthesisation and keyword case",
    level="exploration",
-   text="Generated-input search: a model tree is drawn first (typed expressions over every operator level, every SELECT clause, joins, set operations, CTEs, DML) and rendered with required plus random redundant parentheses; gosqlx.Parse must accept and its tree must deep-equal the model tree built from the library's own node types (both directions: nothing lost, nothing invented). Not exhaustive beyond the generated cases.",
-   note="Trusted: the model grammar and its AST conventions (pkg/sql/ast/doc.go, DESIGN appendix A); constructs no document promises (clauses after a FROM-less SELECT, implicit alias after a bare column, mixed INTERSECT precedence) are not generated.",
+   text="Generated-input search: a model tree is drawn first (typed expressions over every operator level, every SELECT clause, joins, set operations, CTEs, INSERT/UPDATE/DELETE with their clauses, MERGE with table or sub-query source and all WHEN forms, CREATE TABLE with column and table constraints, CREATE INDEX/VIEW/MATERIALIZED VIEW, DROP, TRUNCATE, REFRESH, seven ALTER TABLE operations) and rendered with required plus random redundant parentheses; gosqlx.Parse must accept and its tree must deep-equal the model tree built from the library's own node types (both directions: nothing lost, nothing invented). Not exhaustive beyond the generated cases.",
+   note="Trusted: the model grammar and its AST conventions (pkg/sql/ast/doc.go, DESIGN appendix A); constructs no document promises (clauses after a FROM-less SELECT, implicit alias after a bare column, mixed INTERSECT precedence, the DDL forms listed in DESIGN.md 9.4) are not generated.",
    design="4/C03"),
  "C06": dict(
    technique="property-based testing: round-trip (serialise -> re-parse -> tree equality) and idempotence over generated statements x five serialisers x drawn option sets",
    level="exploration",
-   text="Generated-input search: every G-SQL statement that the parser accepts is serialised by AST.SQL, AST.Format, gosqlx.Format, formatter.Format and the CLI SQLFormatter under drawn option sets; the output must be accepted, re-parse to the same tree (strings case-folded) and be a fixed point of the same serialiser. Exploration only; the cli serialiser is steered around one listed finding.",
+   text="Generated-input search: every G-SQL statement (queries, DML, MERGE, the modelled DDL) that the parser accepts is serialised by AST.SQL, AST.Format, gosqlx.Format, formatter.Format and the CLI SQLFormatter under drawn option sets; the output must be accepted, re-parse to the same tree (strings case-folded) and be a fixed point of the same serialiser. Exploration only; the cli serialiser is steered around one listed finding and ALTER statements around another (no serialiser exists for them).",
    note="Trusted: gosqlx.Parse as the reader on both sides (its own correctness is C03's business); case-folded tree comparison cannot see a change that only alters the case of a name.",
    design="4/C06"),
  "C07": dict(
@@ -68,13 +68,13 @@ CHECKS = {
  "C15": dict(
    technique="property-based testing: generator-known name sets as the reference model (set equality both ways), metamorphic re-layout",
    level="exploration",
-   text="Generated-input search: the statement generator records every table written in a table position (FROM, JOIN, DML targets, any nesting depth), every column reference and every function call it places; ExtractTables/TablesQualified/Columns/ColumnsQualified/Functions and ExtractMetadata must return exactly those sets - nothing missing, nothing extra (aliases, synthetic join names, string contents), no duplicates - and the same sets for a hostile re-layout of the same tokens.",
+   text="Generated-input search: the statement generator records every table written in a table position (FROM, JOIN, DML and MERGE targets and sources, any nesting depth), every column reference and every function call it places; ExtractTables/TablesQualified/Columns/ColumnsQualified/Functions and ExtractMetadata must return exactly those sets - nothing missing, nothing extra (aliases, synthetic join names, string contents), no duplicates - and the same sets for a hostile re-layout of the same tokens.",
    note="Trusted: the generator's bookkeeping; unqualified table names are compared on their last part; CTE column lists and FOR UPDATE OF names are accepted either way.",
    design="4/C15"),
  "C16": dict(
    technique="property-based testing: metamorphic relation over a payload x position x layout x threshold grid (findings at the canonical position must be contained in the findings at every other position/layout), exhaustive payload x position grid, invariants on counts/thresholds/no-mutation/scan independence",
    level="exploration",
-   text="Generated-input search plus an exhaustive payload x position grid: each documented payload (3 tautologies, 6 time-delay/dangerous calls, 4 UNION probes) is first scanned as the top-level WHERE condition (must carry its documented class and severity), then at 40 condition/expression/UNION positions up to nesting depth 2, in single- and multi-statement scripts, under random whitespace, letter case and redundant parentheses: the same (pattern, severity) must be reported; raising the minimum severity must filter exactly; counts must equal the list; the tree must not change; A,B,A scans must agree. The text scanner ScanSQL gets the whitespace/case invariance and threshold/count checks.",
+   text="Generated-input search plus an exhaustive payload x position grid: each documented payload (3 tautologies, 6 time-delay/dangerous calls, 4 UNION probes) is first scanned as the top-level WHERE condition (must carry its documented class and severity), then at 49 condition/expression/UNION positions (incl. MERGE ON and WHEN conditions, MERGE SET/INSERT values, view bodies) up to nesting depth 2, in single- and multi-statement scripts, under random whitespace, letter case and redundant parentheses: the same (pattern, severity) must be reported; raising the minimum severity must filter exactly; counts must equal the list; the tree must not change; A,B,A scans must agree. The text scanner ScanSQL gets the whitespace/case invariance and threshold/count checks.",
    note="Trusted: the payload catalogue's documented class/severity (from the scanner's own tables/docs); containment on (pattern, severity) pairs, extra findings allowed; comments are not used as layout for the regex scanner.",
    design="4/C16"),
  "C09": dict(
@@ -98,13 +98,13 @@ CHECKS = {
  "C19": dict(
    technique="property-based testing of the real binary with fault injection: generated file sets and flag combinations against the library verdict (differential), metamorphic batch-vs-individual and print/-i/--check/-o/stdin consistency, and exhaustive enumeration of write-failure byte offsets (RLIMIT_FSIZE) and kill points (strace SIGKILL injection before every file-related system call) for both in-place writers",
    level="fault_enumeration",
-   text="The gosqlx binary is rebuilt from the tree under test and run in scratch directories. (1) cli_verdict: 1-4 generated files (valid, multi-statement, corrupted, empty, stray semicolons, dialect-only syntax) x validate/format/lint/parse flag combinations: exit status 0 iff the library accepts every input under the same options (lint: no failing-severity finding by the same rule set), check-only modes leave hash/mode/mtime untouched, JSON and SARIF reports parse, have consistent counts and name exactly the failing inputs. (2) format_modes_consistent: text output == concatenation of per-file outputs == what -i writes; --check exits 0 iff -i changes nothing; -o and stdin agree; a file whose processing fails is never rewritten. (3) inplace_faults: for format -i and lint --auto-fix, for EVERY k in 0..len(new) the write fails after exactly k bytes (short write then EFBIG, SIGXFSZ blocked and default), and the process is SIGKILLed before its n-th file-related system call for every n; afterwards the file is the complete original or the complete new content.",
+   text="The gosqlx binary is rebuilt from the tree under test and run in scratch directories. (1) cli_verdict: 1-4 generated files or one text given on stdin or as inline argument (valid, multi-statement, corrupted, empty, stray semicolons, dialect-only syntax) x validate/format/lint/parse flag combinations: exit status 0 iff the library accepts every input under the same options (lint: no failing-severity finding by the same rule set), check-only modes leave hash/mode/mtime untouched, JSON and SARIF reports parse, have consistent counts and name exactly the failing inputs. (2) format_modes_consistent: text output == concatenation of per-file outputs == what -i writes; --check exits 0 iff -i changes nothing; -o and stdin agree; a file whose processing fails is never rewritten. (3) inplace_faults: for format -i and lint --auto-fix, for EVERY k in 0..len(new) the write fails after exactly k bytes (short write then EFBIG, SIGXFSZ blocked and default), and the process is SIGKILLed before its n-th file-related system call for every n; afterwards the file is the complete original or the complete new content.",
    note="Trusted: RLIMIT_FSIZE and strace injection as fault models (a kill lands on a system-call boundary; a torn single write() inside the kernel is modelled by the short-write case); the library verdict as reference; empty and blank-only files are outside the compared verdict because the library's own entry points disagree on them; whether the CLI formatter supports a statement type the parser accepts is not compared.",
    design="4/C19"),
  "C01": dict(
    technique="property-based testing and fuzzing for totality: generated byte strings (hostile-dictionary soup, model-grammar statements valid/prefix/corrupted/mutated, repository corpus plain/mutated/spliced, nesting towers, raw bytes) and generated parser-token sequences no tokenizer produces, each driven through every public entry point and every tree consumer, with panics, hangs and process death as the oracle; runs contained in child processes",
    level="exploration",
-   text="Each case runs ~45 entry points (tokenizer x3, gosqlx.* x10, parser.* x8, model-token parser methods, formatter, both scanners, linter and every rule's Fix) and, on every tree or recovered statement list obtained, 16 consumers (SQL, Format x3, CLI formatter x2, Inspect, Walk, Extract* x6, Scan x2, ReleaseAST), crossed with 12 dialect values and strict mode. Token cases (EOF missing, every prefix, Type-less, re-typed, random, EOF in the middle, empty, nil; position mappings shorter/longer/nil; arbitrary spans) go through Parser.Parse/ParseContext/ParseWithRecovery/ParseWithPositions and the five model-token methods. A panic fails the case and names the entry point; a call that does not return in 60 s is a hang; the whole run is journaled inside a child process so a runtime fatal error is attributed to the case that caused it and re-confirmed alone.",
+   text="large_inputs: every C20 input family at 1 MiB and (six families in quick, all in thorough) at MaxInputSize-1/+0/+1 through all text entry points in a child. Each generated case runs ~45 entry points (tokenizer x3, gosqlx.* x10, parser.* x8, model-token parser methods, formatter, both scanners, linter and every rule's Fix) and, on every tree or recovered statement list obtained, 16 consumers (SQL, Format x3, CLI formatter x2, Inspect, Walk, Extract* x6, Scan x2, ReleaseAST), crossed with 12 dialect values and strict mode. Token cases (EOF missing, every prefix, Type-less, re-typed, random, EOF in the middle, empty, nil; position mappings shorter/longer/nil; arbitrary spans) go through Parser.Parse/ParseContext/ParseWithRecovery/ParseWithPositions and the five model-token methods. A panic fails the case and names the entry point; a call that does not return in 60 s is a hang; the whole run is journaled inside a child process so a runtime fatal error is attributed to the case that caused it and re-confirmed alone.",
    note="Trusted: the 60 s hang budget (generated inputs need milliseconds); MustParse is documented to panic and is excluded; inputs near the 10 MiB limit are exercised in C02/C20, not here.",
    design="4/C01"),
  "C02": dict(
